@@ -36,7 +36,7 @@ func minArgs(v ssa.Value) []ssa.Value {
 func checkC16(c *Ctx, r *Report, tier string) {
 	r.Rule("C16.R1", "no aliasing between partitions: a slice stored into an element of the placement result inside a loop is freshly allocated in that iteration (make+copy, append onto nil/fresh, or a fresh membership call), never a sub-slice of a buffer rewritten by the same loop", 1)
 	r.Rule("C16.R2", "count: the stored slice has length min(len(members), replication factor) and nothing else", 1)
-	r.Rule("C16.R3", "members, distinct: the buffer comes from Conn.NodeIds() (keys of the address map); its only element writes are a pure two-index swap inside the shuffle callback; the membership call returns a fresh slice", 3)
+	r.Rule("C16.R3", "members, distinct: the buffer comes from Conn.NodeIds() (keys of the address map); its only element writes are a pure two-index swap inside the shuffle callback; the membership call returns a fresh slice; the address book (= the membership) is written only by its legitimate writers", 7)
 	r.Rule("C16.R4", "placement travels in the proposal: the proposer stores element i of the placement result into partition i's NodeIds before marshalling; the apply side never calls the placement function", 2)
 	// placement function: method returning [][]uint64 that calls Conn.NodeIds
 	var place *ssa.Function
@@ -260,6 +260,18 @@ func checkC16(c *Ctx, r *Report, tier string) {
 		r.Check(okF, "C16.R3", fnName(nf), "fresh-member-list", c.Pos(nf.Pos()), whyF)
 	} else {
 		r.Unk("C16.R3", "cluster.Conn", "NodeIds", "-", "method not found")
+	}
+	// members are current: the address book is only written by its legitimate writers (C20.R1's obligations)
+	{
+		sub := NewReport("C16")
+		checkC20(c, sub, "quick")
+		for _, o := range sub.Obls {
+			if o.Rule == "C20.R1" {
+				o.Rule = "C16.R3"
+				o.Key = strings.Replace(o.Key, "C20.R1", "C16.R3", 1)
+				r.Obls = append(r.Obls, o)
+			}
+		}
 	}
 	// R4
 	fNodeIds := c.Field("protobuf", "Partition", "NodeIds")
